@@ -26,7 +26,8 @@ more={'C01-F':['C14','C11'],'C04-F':['C18'],'C05-E':['C19'],'C06-F':['C10'],'C07
       'C05-Q':['C06'],'C05-R':['C18','C04'],'C06-Q':['C11','C02'],'C07-Q':['C13'],'C09-Q':['C18'],'C09-R':['C13'],'C11-Q':['C14'],'C12-Q':['C07'],'C15-Q':['C14'],'C15-R':['C03'],'C18-R':['C04'],
       'C01-S':['C02'],'C02-S':['C06'],'C09-S':['C04'],'C09-T':['C04'],'C13-S':['C19'],'C15-T':['C02','C03'],'C04-T':['C18'],'C05-T':['C19'],'C12-S':['C07'],'C11-S':['C06'],
       'C01-U':['C13','C09'],'C01-V':['C13'],'C04-U':['C05'],'C05-U':['C18'],'C06-U':['C11'],'C09-U':['C18'],'C10-U':['C12'],'C11-U':['C02','C03'],'C12-U':['C07'],'C12-V':['C07'],'C14-U':['C11'],'C14-V':['C03'],'C15-U':['C03'],'C15-V':['C12','C07'],'C03-V':['C15'],
-      'C01-W':['C12'],'C01-X':['C05'],'C02-W':['C06'],'C02-X':['C06'],'C05-W':['C04'],'C06-W':['C02'],'C06-X':['C02'],'C11-W':['C02','C12'],'C12-X':['C07'],'C15-W':['C03','C02'],'C03-X':['C19']}
+      'C01-W':['C12'],'C01-X':['C05'],'C02-W':['C06'],'C02-X':['C06'],'C05-W':['C04'],'C06-W':['C02'],'C06-X':['C02'],'C11-W':['C02','C12'],'C12-X':['C07'],'C15-W':['C03','C02'],'C03-X':['C19'],
+      'C18-Y':['C04'],'C01-Y':['C02'],'C01-Z':['C04'],'C09-Z':['C18'],'C13-Z':['C02'],'C04-Z':['C13'],'C07-Z':['C12'],'C05-Y':['C04'],'C05-Z':['C06'],'C12-Y':['C06'],'C15-Z':['C07']}
 for c in more.get(sid,[]):
     if c not in checks: checks.append(c)
 print(','.join(checks))
